@@ -1,4 +1,5 @@
 import HexProofs.Writes.PropsLib
+import HexProofs.Facade.Settings
 /-
 C08 – Indicators inside a Hexital behave exactly like the same indicators standalone (every `F`).
 
@@ -17,9 +18,25 @@ Proved here:
     constructed from the same candles and driven with the same program – provided the member's tree neither
     writes under nor can read a name of another member (read-set locality of all 28 kinds,
     `HexProofs/Writes/StripEngine.lean`; the candle manager never looks at readings, `StripManager.lean`).
-Stated, not proved (`members_FULL`): the same for members WITH their own timeframe (needs the manager
-refinement: collapsing the default manager's candles = collapsing the raw stream) and for the dict / settings
-construction forms (not part of this model layer).
+  * members given as CONFIGURATION DICTS (model: `HexModel/Core/Settings.lean`, proofs:
+    `HexProofs/Facade/Settings.lean`): `Hexital._build_indicator` applied to the dict an indicator's `settings`
+    property returns rebuilds THE SAME OBJECT – class, every parameter, every public base field
+    (`settings_roundtrip`), hence the same tree and name (`settings_same_tree`), the same manager
+    configuration (`settings_same_manager`) and the same registered `Member` (`settings_same_member`, the
+    thing `member_standalone` talks about) – for every one of the 27 shipped classes incl. `Amorph`, on the
+    explicit decidable domain `IndCfg.Valid` (a validated timeframe string; `timeframe_fill` only with a
+    timeframe; MACD periods ordered as `_validate_fields` leaves them; `Counter.count_value` not `None`;
+    an `Amorph` over a function of `PATTERN_MAP | MOVEMENT_MAP` with distinct argument names).  Each
+    exclusion is witnessed: `settings_lose_fill_without_timeframe`, `settings_unmapped_function`,
+    `settings_lose_counter_none`.  For ANY dict the dict form is BY DEFINITION the keyword constructor of the
+    class it names (`dict_is_constructor`, `dict_is_amorph`), and the error behaviour is as in the library:
+    no usable "indicator" / "analysis" key → `InvalidAnalysis` (`dict_missing_key`, `dict_falsy_key`), a
+    keyword the class does not have → `TypeError` (`dict_unknown_keyword`).
+Stated, not proved (`members_FULL`): `member_standalone` for members WITH their own timeframe (needs the
+manager refinement: collapsing the default manager's candles = collapsing the raw stream).  Outside the settings
+model (see its header): the `TimeFrame` enum / `timedelta` / `int` forms of `timeframe` (strings only, ASCII),
+`str(multiplier)` in generated names (a parameter `mulStr` of `toInd`), values whose type differs from the
+annotation, a `candles` keyword inside a dict.
 -/
 namespace Hex.C08
 open Hex
